@@ -7,6 +7,7 @@ import (
 	"hash/fnv"
 	"math/big"
 	"regexp"
+	"sort"
 	"strings"
 )
 
@@ -717,16 +718,56 @@ func (g *FnGen) evalCall(x ECall, ctx *EvalCtx) Val {
 			c2.bound = nb
 			return g.eval(x.Args[3], &c2)
 		}
-		ph := bodyAt("q_sumk")
+		// The enclosing spec definition's parameters (and other bound variables) are arguments of
+		// the sum function, not part of its identity: two sums over equal arguments are then equal
+		// by congruence even when the argument terms are spelled differently.
+		var pnames []string
+		used := map[string]bool{}
+		exprIdents(x.Args[3], used)
+		for n := range ctx.bound {
+			if n != kid.Name && used[n] {
+				pnames = append(pnames, n)
+			}
+		}
+		sort.Strings(pnames)
+		var psorts, pterms []string
+		phBound := map[string]Val{}
+		for _, n := range pnames {
+			v := ctx.bound[n]
+			t, srt := v.T, v.S
+			if v.Lit != nil {
+				t, srt = bvLit(v.Lit, 64), sortBV64
+			}
+			psorts = append(psorts, srt)
+			pterms = append(pterms, t)
+			pv := v
+			pv.Lit = nil
+			pv.T = "q_sump_" + n
+			pv.S = srt
+			pv.Place = nil
+			phBound[n] = pv
+		}
+		phCtx := *ctx
+		nbp := map[string]Val{}
+		for n, v := range phBound {
+			nbp[n] = v
+		}
+		nbp[kid.Name] = Val{T: "q_sumk", S: sortBV64, Signed: true, Go: types.Typ[types.Int]}
+		phCtx.bound = nbp
+		ph := g.eval(x.Args[3], &phCtx)
 		if !isBV(ph.S) || ph.Lit != nil {
 			efail("sum: body must be a machine integer term")
 		}
 		hsh := fnv.New64a()
-		hsh.Write([]byte(ph.S + "|" + ph.T))
+		hsh.Write([]byte(ph.S + "|" + ph.T + "|" + strings.Join(psorts, ",")))
 		fn := fmt.Sprintf("sum_%x", hsh.Sum64())
-		g.D.declare("sum:"+fn, fmt.Sprintf("(declare-fun %s ((_ BitVec 64) (_ BitVec 64)) %s)", fn, ph.S))
-		term := fmt.Sprintf("(%s %s %s)", fn, lo, hi)
-		if !strings.Contains(hi, "q_") && !strings.Contains(lo, "q_") {
+		argSorts := append([]string{"(_ BitVec 64)", "(_ BitVec 64)"}, psorts...)
+		g.D.declare("sum:"+fn, fmt.Sprintf("(declare-fun %s (%s) %s)", fn, strings.Join(argSorts, " "), ph.S))
+		app := func(lo, hi string) string {
+			return fmt.Sprintf("(%s %s)", fn, strings.Join(append([]string{lo, hi}, pterms...), " "))
+		}
+		term := app(lo, hi)
+		if !strings.Contains(hi, "q_") && !strings.Contains(lo, "q_") && !strings.Contains(strings.Join(pterms, " "), "q_") {
 			key := "sum-unfold:" + term
 			if g.root().sumUnfolded == nil {
 				g.root().sumUnfolded = map[string]bool{}
@@ -737,7 +778,7 @@ func (g *FnGen) evalCall(x ECall, ctx *EvalCtx) Val {
 				bv := bodyAt(prev)
 				g.assume("true", and(
 					implies(fmt.Sprintf("(bvsle %s %s)", hi, lo), fmt.Sprintf("(= %s (_ bv0 %d))", term, bvWidth(ph.S))),
-					implies(fmt.Sprintf("(bvsgt %s %s)", hi, lo), fmt.Sprintf("(= %s (bvadd (%s %s %s) %s))", term, fn, lo, prev, bv.T))), "sum-unfold")
+					implies(fmt.Sprintf("(bvsgt %s %s)", hi, lo), fmt.Sprintf("(= %s (bvadd %s %s))", term, app(lo, prev), bv.T))), "sum-unfold")
 			}
 		}
 		return Val{T: term, S: ph.S, Signed: ph.Signed, Go: ph.Go}
@@ -1060,3 +1101,29 @@ var qNameRe = regexp.MustCompile(`q_[A-Za-z0-9_]+![0-9]+`)
 // stripQNames removes the fresh-name suffixes of bound variables so that two renderings of the
 // same quantified formula compare equal.
 func stripQNames(t string) string { return qNameRe.ReplaceAllString(t, "q") }
+
+// exprIdents collects the identifiers an expression mentions.
+func exprIdents(e Expr, out map[string]bool) {
+	switch x := e.(type) {
+	case EIdent:
+		out[x.Name] = true
+	case EUnary:
+		exprIdents(x.X, out)
+	case EBinary:
+		exprIdents(x.X, out)
+		exprIdents(x.Y, out)
+	case ECall:
+		for _, a := range x.Args {
+			exprIdents(a, out)
+		}
+	case ESel:
+		exprIdents(x.X, out)
+	case EIndex:
+		exprIdents(x.X, out)
+		exprIdents(x.I, out)
+	case ETypeAssert:
+		exprIdents(x.X, out)
+	case EForall:
+		exprIdents(x.Body, out)
+	}
+}
